@@ -147,6 +147,11 @@ def report(chk, fails, own_kinds, search):
             return
     ctx = " ".join(f.get("context") or [])
     mw = re.search(r"ST (reader\S*): memory order (\d+) weaker than", dmsg)
+    if not mw and ":: expected MB" in dmsg:
+        # a full fence is missing (or replaced by rmb / wmb) right after the store of a reader word
+        last = [l for l in (f.get("context") or [])[-3:-1] if re.search(r"\bST reader\S*\.ctr", l)]
+        if last:
+            mw = re.search(r"ST (reader\S*) \S+ (\d+)", last[-1])
     if chk.pid in ("C01", "C02") and mw:
         # a reader's publication of its own word lost its trailing full fence (on x86 a seq_cst store is xchg / mov+mfence,
         # a release store is a plain mov): reader "ST word; LD <updater's flag / data>" against updater "ST flag; mb; LD word"
